@@ -16,6 +16,14 @@ import (
 
 var tokKinds = []string{"generic", "expression", "csv", "mustache"}
 
+// tokKindsExt adds tokenizers that carry a user configuration built from the library's own states:
+//
+//	generic+sym     extra symbols whose proper prefixes are not registered ("...", "=:~", "-->", "::=", "≠≠")
+//	expression+cpp  the expression tokenizer with the C++ comment state plugged in for '/'
+//	generic+ws      '\n' and U+3000..U+303F taken out of the blank / word characters and mapped to the symbol state
+//	csv+cfg         non-Latin separators and quotes, configured quotes-first
+var tokKindsExt = []string{"generic", "expression", "csv", "mustache", "generic+sym", "expression+cpp", "generic+ws", "csv+cfg"}
+
 // option bits
 const (
 	optSkipUnknown = 1 << iota
@@ -52,6 +60,31 @@ func newTokenizer(kind string) tokenizers.ITokenizer {
 		return csv.NewCsvTokenizer()
 	case "mustache":
 		return mtok.NewMustacheTokenizer()
+	case "generic+sym":
+		t := generic.NewGenericTokenizer()
+		for _, s := range []string{"...", "=:~", "-->", "::=", "≠≠", "<=>"} {
+			t.SymbolState().Add(s, tokenizers.Symbol)
+		}
+		t.SetCharacterState('≠', '≠', t.SymbolState())
+		t.WordState().SetWordChars('≠', '≠', false) // a symbol character does not continue a word either
+		return t
+	case "expression+cpp":
+		t := ctok.NewExpressionTokenizer()
+		t.SetCommentState(generic.NewCppCommentState())
+		t.SetCharacterState('/', '/', t.CommentState())
+		return t
+	case "generic+ws":
+		t := generic.NewGenericTokenizer()
+		t.WhitespaceState().SetWhitespaceChars('\n', '\n', false)
+		t.SetCharacterState('\n', '\n', t.SymbolState())
+		t.WordState().SetWordChars(0x3000, 0x303f, false)
+		t.SetCharacterState(0x3000, 0x303f, t.SymbolState())
+		return t
+	case "csv+cfg":
+		t := csv.NewCsvTokenizer()
+		t.SetQuoteSymbols([]rune{'«', '\'', '“'})
+		t.SetFieldSeparators([]rune{'，', ';', '|'})
+		return t
 	}
 	panic("unknown tokenizer kind " + kind)
 }
@@ -59,7 +92,7 @@ func newTokenizer(kind string) tokenizers.ITokenizer {
 var tokPools = map[string]*sync.Pool{}
 
 func init() {
-	for _, k := range tokKinds {
+	for _, k := range tokKindsExt {
 		kind := k
 		tokPools[kind] = &sync.Pool{New: func() interface{} { return newTokenizer(kind) }}
 	}
